@@ -311,6 +311,8 @@ def validate_trace(module, cfg, events, workers=1, timeout=900, dfs=False, env=N
     shutil.rmtree(d, ignore_errors=True)
     if r.rc not in (0, 12, 13) and not r.generated:
         raise MachineryError("trace spec %s failed to run: rc=%s\n%s" % (module, r.rc, r.out[-3000:]))
+    if "overrides.Json.ndDeserialize" in r.out and "produced the following error" in r.out:
+        raise MachineryError("trace for %s is not readable by TLC's Json module:\n%s" % (module, r.out[-1500:]))
     accepted = r.ok
     matched = max(0, r.diameter - 1)
     return accepted, matched, r
